@@ -43,7 +43,9 @@ func specScope(id, eco, s string) bool {
 	case "C08", "C12":
 		return !longDigits.MatchString(s)
 	case "C13":
-		return !longDigits.MatchString(s) && !upperCase.MatchString(s)
+		// the property's shape: groups are .<letters>[N] or -<letters>[.N]: no empty '-' field
+		t := strings.TrimSpace(s)
+		return !longDigits.MatchString(s) && !upperCase.MatchString(s) && !strings.Contains(t, "--") && !strings.HasSuffix(t, "-")
 	}
 	return true
 }
